@@ -45,6 +45,10 @@ def one(vdir, kind, d, head, onlychecks=None):
     try:
         rc, out = sh('git apply %s' % os.path.join(d, 'patch.diff'), cwd=wt)
         if rc != 0:
+            # the library has moved on since the patch was written (later fix:
+            # commits): try a three-way application before giving up
+            rc, out = sh('git apply --3way %s && git reset -q' % os.path.join(d, 'patch.diff'), cwd=wt)
+        if rc != 0:
             return name, None, 'patch does not apply any more: ' + out[-200:]
         for p in checks:
             rc, out = sh('./check %s quick' % p, cwd=vdir, env=dict(os.environ, VERIF_REPO=wt))
